@@ -68,6 +68,19 @@ NewFile ==
   /\ ei' = ei + 1
   /\ UNCHANGED << tid, ph, rd, nrec, bnd, dec, clf, cobj, cnf, rej, hcm, seen, projs, failedw >>
 
+(* the storage unit label is a public, mutable object: a later assignment changes the current specification *)
+SetSul ==
+  /\ ph = "ev" /\ ei <= NEvents /\ E.op = "set_sul"
+  /\ cfil' = IF E.outcome # "ok" THEN cfil
+             ELSE [i \in DOMAIN cfil |-> IF cfil[i].fid # E.fid THEN cfil[i]
+                     ELSE IF E.field = "sequence_number" THEN [cfil[i] EXCEPT !.seq = E.num]
+                     ELSE IF E.field = "max_record_length" THEN [cfil[i] EXCEPT !.vrl = E.num]
+                     ELSE [cfil[i] EXCEPT !.setid = E.text]]
+  /\ verdict' = verdict \cup Tag(FlagClause(hcm.flag), ei)
+  /\ cnt' = [cnt EXCEPT !.events = @ + 1]
+  /\ ei' = ei + 1
+  /\ UNCHANGED << tid, ph, rd, nrec, bnd, dec, clf, cobj, cnf, rej, hcm, seen, projs, failedw >>
+
 NoteHc(f, fid) == [i \in DOMAIN f |-> IF f[i].fid = fid THEN [f[i] EXCEPT !.allhc = @ /\ hcm.flag] ELSE f[i]]
 
 AddLf ==
@@ -376,7 +389,7 @@ CheckHistory ==          \* C10 / C11 / C14 same specification => same bytes; C1
 \* (handled in BeginWrite for the flag; caller data below)
 
 (* events this specification has no clause for are skipped (counted)        *)
-KnownOps == {"lowwrite", "write", "new_file", "add_lf", "add", "set", "nofmt_data", "hc_enter", "hc_exit", "hc_exit_exc", "encode", "attr"}
+KnownOps == {"lowwrite", "write", "new_file", "add_lf", "add", "set", "nofmt_data", "hc_enter", "hc_exit", "hc_exit_exc", "encode", "attr", "set_sul"}
 SkipEvent ==
   /\ ph = "ev" /\ ei <= NEvents /\ E.op \notin KnownOps
   /\ ei' = ei + 1 /\ cnt' = [cnt EXCEPT !.events = @ + 1]
@@ -389,7 +402,7 @@ Finish ==
   /\ ph' = "done"
   /\ UNCHANGED << tid, ei, rd, nrec, bnd, dec, cfil, clf, cobj, cnf, rej, hcm, seen, projs, failedw, verdict, cnt >>
 
-Next == NewFile \/ AddLf \/ AddObject \/ SetAttr \/ NofmtData \/ HcEvent \/ Encode \/ AttrEvent
+Next == NewFile \/ SetSul \/ AddLf \/ AddObject \/ SetAttr \/ NofmtData \/ HcEvent \/ Encode \/ AttrEvent
         \/ BeginWrite \/ ReadVR \/ EndFile \/ CheckStructure \/ CheckObjects \/ CheckData \/ CheckHistory
         \/ SkipEvent \/ Finish
 
